@@ -31,6 +31,11 @@
 //! `MemTable::delete_from/update` and EVERY row is deleted / counted as updated (`DELETE FROM t WHERE false` empties the
 //! table; `DELETE FROM t WHERE a IN (SELECT a FROM u)` too). The signature is computed dynamically: some UPDATE/DELETE
 //! of the history has a WHERE and its optimized input plan contains an EmptyRelation or a Join.
+//! Known finding `update-assignment-type-drift` / `insert-type-drift` (genuine): `update_to_plan` / `insert_to_plan` decide whether
+//! to cast an assignment / inserted value to the column type on the *uncoerced* expression; when TypeCoercion later lifts a
+//! CASE with a VARCHAR (= Utf8View) branch to Utf8View, UPDATE fails in `zip` ("arguments need to have the same data type") and
+//! INSERT .. SELECT silently stores a Utf8View batch in the Utf8 table, after which any statement rebuilding batches fails
+//! ("column types must match schema types"). Fixes: /verif/fixes/C39-update-assignment-type-drift.diff, C39-insert-type-drift.diff.
 //! Lesser finding (clean rejection, counted as `stopped:rejected:cse`): an assignment or predicate with a repeated
 //! sub-expression (`SET a = (a + b) * (a + b)`) fails with `Schema error: No field named __common_expr_1` because
 //! common-subexpression elimination inserts a projection the extraction does not see through.
@@ -604,7 +609,14 @@ async fn drive(ctx: &SessionContext, case: &Case) -> (CaseResult, Option<String>
                 break;
             }
             Err((class, msg)) => {
-                let sig = if matches!(s, Stmt::Update { .. }) && msg.contains("arguments need to have the same data type") { Some("update-assignment-type-drift".to_string()) } else { lost_sig(ctx, s, &sql).await };
+                let sig = if matches!(s, Stmt::Update { .. }) && msg.contains("arguments need to have the same data type") {
+                    Some("update-assignment-type-drift".to_string())
+                } else if msg.contains("column types must match schema types") {
+                    // an earlier INSERT .. SELECT stored a batch whose column type differs from the table's (Utf8View in a Utf8 column)
+                    Some("insert-type-drift".to_string())
+                } else {
+                    lost_sig(ctx, s, &sql).await
+                };
                 return (fail(format!("statement {i} `{sql}` failed with {class:?}: {msg} (the reference applies it: count {})", facts.count), &script, labels), sig);
             }
         };
@@ -621,7 +633,10 @@ async fn drive(ctx: &SessionContext, case: &Case) -> (CaseResult, Option<String>
         }
         let content = match sql_rows(ctx, "SELECT * FROM t").await {
             Ok(r) => r,
-            Err((class, msg)) => return (fail(format!("SELECT * FROM t after statement {i} `{sql}` failed with {class:?}: {msg}"), &script, labels), None),
+            Err((class, msg)) => {
+                let sig = msg.contains("column types must match schema types").then(|| "insert-type-drift".to_string());
+                return (fail(format!("SELECT * FROM t after statement {i} `{sql}` failed with {class:?}: {msg}"), &script, labels), sig);
+            }
         };
         if let Some(d) = refsql::multiset_diff(&model.t, &content) {
             let sig = lost_sig(ctx, s, &sql).await;
